@@ -7,6 +7,7 @@ mod lowlevel;
 mod problems;
 mod props;
 mod run;
+mod trees;
 mod util;
 
 use engine::*;
@@ -90,6 +91,7 @@ fn main() {
     let known = load_known(&verif_dir);
     let code = dispatch!(id.as_str(), &ctx, &known, replay.as_deref(),
         "C01" => c01,
+        "C02" => c02,
         "C03" => c03,
         "C04" => c04,
         "C05" => c05,
